@@ -211,7 +211,9 @@ def trace_on(draw, graph, min_len=1, max_len=7, kinds=None, time=False, sigmas=N
             a = loc[prev] if prev is not None else loc[cur]
             b = loc[cur]
             if kind == "exact":
-                f = pick(draw, [0.0, 0.5, 1.0, 1.0])
+                # on a node, in the middle of an edge, or on the edge a hair's breadth from its end (the node-and-edge matchers
+                # treat "at the end" specially, with a 1e-8 tolerance)
+                f = pick(draw, [0.0, 0.5, 1.0, 1.0, 1e-5, 1 - 1e-5, 1e-3])
             else:
                 f = draw(INT(0, 20)) / 20.0
             p = (a[0] + f * (b[0] - a[0]), a[1] + f * (b[1] - a[1]))
